@@ -486,7 +486,7 @@ def gfa_tables(F, rep, rule="C20.2"):
                 problems.append("the GFA does not start with a header line: %r" % text[:80])
                 continue
             segs = [l for l in lines if l.startswith("S")]
-            if [l.split("\t")[1] for l in segs] != ["0", "1"] or not all(line_s.match(l) for l in segs):
+            if [(l.split("\t") + ["", ""])[1] for l in segs] != ["0", "1"] or not all(line_s.match(l) for l in segs):
                 problems.append("segment lines are %s; every node must be listed once with its sequence" % segs)
                 continue
             if any(l.split("\t")[2] != "ACGT" for l in segs):
